@@ -18,6 +18,7 @@ run-time tape) and written as a replay file; replaying re-executes exactly
 (plan, tape) and must reproduce the same violation signature.
 """
 import faulthandler
+import gc
 import hashlib
 import importlib
 import json
@@ -89,11 +90,20 @@ def digest_of(obj):
 def run_once(mod, plan, sched):
     """execute (plan, sched tape list or Tape) -> ("ok", info) | ("viol", sig, msg, tape)"""
     tape = sched if isinstance(sched, Tape) else Tape(replay=sched)
+    gc_control = getattr(mod, "GC_CONTROL", False)
+    if gc_control:
+        # finalisers of simulated streams must never run at an allocation-dependent
+        # moment inside a run: collect only between runs (when every primitive is a no-op)
+        gc.disable()
     try:
         info = mod.execute(plan, tape)
         return ("ok", info, tape.recorded())
     except Violation as v:
         return ("viol", v.sig, v.msg, tape.recorded())
+    finally:
+        if gc_control:
+            gc.collect()
+            gc.enable()
 
 
 def generate(mod, run_seed, cfg):
@@ -314,7 +324,7 @@ def sweep(pid, tier, base_seed, runs=None, jobs=None, budget_s=None, write_evide
     tasks = []
     k = 0
     while k < runs:
-        tasks.append((pid, base_seed, k, min(runs, k + batch), cfg, cfg.get("batch_wall_cap", 900)))
+        tasks.append((pid, base_seed, k, min(runs, k + batch), cfg, cfg.get("batch_wall_cap", 300)))
         k += batch
 
     total = {"runs": 0, "nontrivial": 0, "digests": set(), "probes": {}, "faults": {},
